@@ -24,7 +24,7 @@ func vOverlapDepth(cis []*ChunkIndex) uint64 {
 
 // C20 (index-based clause): at every moment of an index-based read the number of decompressed chunk buffers
 // held is at most the overlap depth of the chunk time ranges (1 in file order).
-// params: n, per (file shape: n messages, per per chunk), ord (0 file, 1 log time, 2 reverse)
+// params: n, per (file shape: n messages, per per chunk), ord (0 file, 1 log time, 2 reverse), win (1: plus a symbolic time window)
 func VC20Slots() {
 	n, per, ord := vParam("n"), vParam("per"), vParam("ord")
 	w, file, _ := vMultiChunk(n, per, 2, 0)
@@ -40,6 +40,15 @@ func VC20Slots() {
 		ropts = append(ropts, InOrder(LogTimeOrder))
 	case 2:
 		ropts = append(ropts, InOrder(ReverseLogTimeOrder))
+	}
+	// win=1: a symbolic time window [s,e) is applied as well (messages outside it are never yielded, and must not
+	// keep their chunk's buffer alive)
+	win := vParam("win") == 1
+	var ws, we uint64
+	if win {
+		ws, we = vSymU64("ws"), vSymU64("we")
+		vAssume(ws <= we)
+		ropts = append(ropts, AfterNanos(ws), BeforeNanos(we))
 	}
 	mi, err := r.Messages(ropts...)
 	vAssert(err == nil, "Messages")
@@ -70,7 +79,9 @@ func VC20Slots() {
 		}
 		cnt++
 	}
-	vAssert(cnt == n, "every message returned")
+	if !win {
+		vAssert(cnt == n, "every message returned")
+	}
 	for i := range it.chunkSlots {
 		vAssert(it.chunkSlots[i].unreadMessages == 0, "no slot is left marked as holding unread messages")
 	}
@@ -117,7 +128,7 @@ func VC20Lexer() {
 // C20 (attachments): an attachment streams through the writer and through the lexer without any single
 // allocation that grows with its size: with the allocation ceiling set to lim bytes (well below the data size)
 // writing and reading back succeed, so no buffer of the attachment's size was ever requested.
-// params: size (data bytes), lim (ceiling for any single allocation), crc
+// params: size (data bytes), lim (ceiling for any single allocation), crc, cb (1: read through the attachment callback; 0: no callback)
 func VC20Attachment() {
 	size, lim := vParam("size"), vParam("lim")
 	data := vSymBytes("data", size, size)
@@ -135,6 +146,31 @@ func VC20Attachment() {
 	got := 0
 	same := true
 	buf := make([]byte, 4096)
+	if vParam("cb") == 0 {
+		// no attachment callback: the lexer (and the non-indexed iterator built on it) must skip the attachment
+		// without materialising it
+		lex, err := NewLexer(vNewSource(sink.b))
+		vAssert(err == nil, "NewLexer")
+		for {
+			vAllocLimit(lim)
+			_, _, err := lex.Next(nil)
+			vAllocLimit(1<<31 - 1)
+			if err != nil {
+				vAssert(err == io.EOF, "lexer reaches EOF")
+				break
+			}
+		}
+		r, err := NewReader(vReadOnly{vNewSource(sink.b)})
+		vAssert(err == nil, "NewReader")
+		it, err := r.Messages(UsingIndex(false))
+		vAssert(err == nil, "Messages")
+		vAllocLimit(lim)
+		_, _, _, err = it.NextInto(nil)
+		vAllocLimit(1<<31 - 1)
+		vAssert(err == io.EOF, "no message, EOF")
+		vReach("end")
+		return
+	}
 	lex, err := NewLexer(vNewSource(sink.b), &LexerOptions{ComputeAttachmentCRCs: vParam("crc") == 1, AttachmentCallback: func(ar *AttachmentReader) error {
 		vAllocLimit(lim)
 		for {
